@@ -306,7 +306,14 @@ class C02(StructBase):
 
 class C19(StructBase):
     id = "C19"
-    modules = ["EG.Props.C19"]
+    modules = ["EG.Props.C19Table", "EG.Props.C19"]
+
+    def regenerate(self, log):
+        import tables_laws
+        n, changed = tables_laws.regenerate()
+        log["table_rows"] = n
+        log["table_changed_since_last_run"] = changed
+        return None
     opsfn = staticmethod(gen.laws_ops)
     assumptions = ["UniverseLaws(applies_to=U) constructed directly is outside the statement's list of calls"]
 
